@@ -101,10 +101,14 @@ class Driver(GenericAdapter):
                 return "result@" + lab
         return None
 
-    def obs1(self, f, is_std):
+    quiet = False       # True: observe with tell() only (getvalue / len reposition the stream and reset the decoder)
+
+    def obs1(self, f, is_std, quiet=None):
         o = {}
         try:
             o["tell"] = f.tell()
+            if self.quiet if quiet is None else quiet:
+                return o
             o["value"] = self.dec(f.getvalue())
             o["tell_after_getvalue"] = f.tell()
             o["len"] = len(f.getvalue()) if is_std else len(f)
@@ -128,7 +132,7 @@ class Driver(GenericAdapter):
         for lab, o in zip(self.labels(), obs["per"]):
             if "raised" in o:
                 return "reads-raised:%s@%s" % (o["raised"], lab)
-            d = core.first_diff(o, pobs)
+            d = core.first_diff(o, pobs if len(o) > 1 else {"tell": pobs["tell"]})
             if d:
                 return "%s@%s" % (d, lab)
         return None
@@ -183,13 +187,14 @@ def record(n, length, seed):
         is_std = not hasattr(f, "rollover")
         evs = []
         size = 0
+        quiet = t % 2 == 1
         for i in range(length):
             c = rng.random()
             units = list(drv.tab)
             if c < 0.3 and size < 40:
                 op = {"op": "seek_end", "n": 0, "piece": []}
                 f_, r_ = f, drv.one(f, op, is_std)
-                evs.append({"op": op, "r": r_, "obs": drv.obs1(f, is_std)})
+                evs.append({"op": op, "r": r_, "obs": drv.obs1(f, is_std, quiet), "quiet": quiet})
                 piece = [rng.choice(units + [10, 1, 1]) for _ in range(rng.randint(1, 6))]
                 op = {"op": "write", "n": 0, "piece": piece}
                 size += len(piece)
@@ -200,7 +205,8 @@ def record(n, length, seed):
             else:
                 op = {"op": rng.choice(["readline", "next", "readlines", "iterate", "tell", "getvalue", "len", "len", "readline"]), "n": 0, "piece": []}
             r_ = drv.one(f, op, is_std)
-            evs.append({"op": op, "r": r_, "obs": drv.obs1(f, is_std)})
+            last = i == length - 1
+            evs.append({"op": op, "r": r_, "obs": drv.obs1(f, is_std, quiet and not last), "quiet": quiet and not last})
         traces.append({"flavour": flavour, "chunk": chunk or 0, "max_size": ms, "stdlib": is_std, "ev": evs})
     from boltons import ioutils
     ioutils.READ_CHUNK_SIZE = 21333
@@ -213,7 +219,8 @@ BAD_OBS = {"tell": -7, "value": [-7], "tell_after_getvalue": -7, "len": -7, "tel
 def clean(traces):
     for tr in traces:
         for ev in tr["ev"]:
-            if "raised" in ev["obs"] or set(ev["obs"]) != set(BAD_OBS):
+            ev.setdefault("quiet", False)
+            if "raised" in ev["obs"] or set(ev["obs"]) != ({"tell"} if ev["quiet"] else set(BAD_OBS)):
                 ev["why"] = ev["obs"].get("raised", "shape")
                 ev["obs"] = dict(BAD_OBS)
             v = ev["r"]["v"]
@@ -283,6 +290,9 @@ def main(tier, seed):
         core.replay_graph_generic(g, drv, verdict, stats)
         Driver(fl, chunk)      # re-assert the chunk size in this process for the walks
         core.replay_walks(g, drv, verdict, stats, n_walks=3000 if thorough else 400, length=14, seed=seed)
+        drv.quiet = True          # the same walks without the intrusive reads between the calls
+        core.replay_walks(g, drv, verdict, stats, n_walks=3000 if thorough else 400, length=14, seed=seed + 1)
+        drv.quiet = False
     from boltons import ioutils
     ioutils.READ_CHUNK_SIZE = 21333
     canary(stats)
